@@ -444,18 +444,20 @@ def _gibbs_reload_part(ck, tier):
                     break
 
 
-def _start_part(ck, tier):
+def _start_part(ck, tier, as_instance=False):
     """a starting point outside the limits given at construction: refused, or -- if accepted -- never recorded outside"""
     from inference.mcmc import EnsembleSampler, HamiltonianChain, PcaChain
     post = lambda x: -0.5 * float(np.sum((np.asarray(x, dtype=float) - 7.5) ** 2) / 0.01)      # peaked at the offending point: it would stay put
     lo, hi = np.array([-5.0, -5.0]), np.array([5.0, 5.0])
+    from inference.mcmc.utilities import Bounds
+    bnds = Bounds(lower=lo.copy(), upper=hi.copy()) if as_instance else (lo, hi)        # the limits as a (lower, upper) pair or as a ready-made Bounds object
     walkers = np.array([[0.0, 1.0], [1.0, -1.0], [-2.0, 2.0], [3.0, 0.5], [-1.0, -3.0], [2.0, 2.5]])
     for bad_walker in range(len(walkers)):
         w = walkers.copy()
         w[bad_walker] = [7.5, 7.5]
-        ck.case(("start", "ensemble", bad_walker))
+        ck.case(("start", "ensemble", bad_walker, as_instance))
         try:
-            ch = EnsembleSampler(posterior=post, starting_positions=w, bounds=(lo, hi), display_progress=False)
+            ch = EnsembleSampler(posterior=post, starting_positions=w, bounds=bnds, display_progress=False)
         except ValueError:
             continue                                        # refused: nothing is ever recorded
         except Exception as ex:
@@ -469,11 +471,11 @@ def _start_part(ck, tier):
             ck.violation("a walker started outside the bounds was accepted and recorded outside them",
                          {"walker_index": bad_walker, "start": w[bad_walker].tolist(), "bounds": [lo.tolist(), hi.tolist()], "ulps_outside": int(worst)},
                          site="EnsembleSampler.__init__:start")
-    for cname, mk in (("HamiltonianChain", lambda st: HamiltonianChain(posterior=post, grad=lambda x: -(np.asarray(x) - 7.5) / 0.01, start=st, bounds=(lo, hi),
+    for cname, mk in (("HamiltonianChain", lambda st: HamiltonianChain(posterior=post, grad=lambda x: -(np.asarray(x) - 7.5) / 0.01, start=st, bounds=bnds,
                                                                        display_progress=False)),
-                      ("PcaChain", lambda st: PcaChain(posterior=post, start=st, widths=np.array([0.1, 0.1]), bounds=(lo, hi), display_progress=False))):
+                      ("PcaChain", lambda st: PcaChain(posterior=post, start=st, widths=np.array([0.1, 0.1]), bounds=bnds, display_progress=False))):
         for st in (np.array([7.5, 0.0]), np.array([0.0, 7.5])):
-            ck.case(("start", cname, tuple(st)))
+            ck.case(("start", cname, tuple(st), as_instance))
             try:
                 ch = mk(st.copy())
             except ValueError:
@@ -586,6 +588,7 @@ def run(tier):
     from harness import c07
     c07.orbit_part(ck, tier, only_box=True, reversibility=False)
     _start_part(ck, tier)
+    _start_part(ck, tier, as_instance=True)
     _tiny_bounds_start_part(ck, tier)
     _int_start_part(ck, tier)
     _fresh_reload_part(ck, tier)
